@@ -101,6 +101,46 @@ def check(ctx):
 
 
 # ====================================================================================================== dunders
+def _ret_leaves(v, conds=()):
+    """value leaves of a (possibly nested) conditional expression with the tests that select them"""
+    if isinstance(v, ast.IfExp):
+        return _ret_leaves(v.body, conds + ((v.test, True),)) + _ret_leaves(v.orelse, conds + ((v.test, False),))
+    return [(conds, v)]
+
+
+def _splices_self(L, selfname):
+    """the operand list handed to a combinator is built from the *operands of* self (`[*self.x, b]`, `self.x + [b]`,
+    `list(self.x) + [b]`) instead of from self: the expression node that does it, else None"""
+    def own_part(x):
+        return any(isinstance(n, ast.Attribute) and _name(n.value, selfname) for n in ast.walk(x))
+    if isinstance(L, (ast.List, ast.Tuple)):
+        for e in L.elts:
+            if isinstance(e, ast.Starred) and own_part(e.value):
+                return e
+        return None
+    if isinstance(L, ast.BinOp) and isinstance(L.op, ast.Add):
+        for side in (L.left, L.right):
+            if not isinstance(side, (ast.List, ast.Tuple)) and own_part(side):
+                return side
+            r = _splices_self(side, selfname)
+            if r is not None:
+                return r
+    return None
+
+
+def _is_helper_call(prog, f, v):
+    """a call of a function of the package that is not a class (something the rule would have to look into)"""
+    if not isinstance(v, ast.Call):
+        return False
+    fn = v.func
+    if isinstance(fn, ast.Name):
+        return fn.id not in prog.classes and (prog.module_func(f.module.name, fn.id) is not None
+                                              or prog.resolve_import(f.module, fn.id) is not None)
+    if isinstance(fn, ast.Attribute) and isinstance(fn.value, ast.Name):
+        return fn.value.id in (f.params[0] if f.params else 'self', 'cls') or fn.value.id in prog.classes
+    return isinstance(fn, ast.Attribute) and isinstance(fn.value, ast.Call) and _name(fn.value.func, 'super')
+
+
 def _dunders(ctx):
     """op_table part 1 + promotion.  returns {dunder: (class name, return node)}"""
     prog = ctx.prog
@@ -110,37 +150,68 @@ def _dunders(ctx):
                 "FixedCalendar(other) and leaves calendars alone", floor=6)
     table = {}
     helpers = {}
+    inline = {}
 
     def body(o):
         for d in OPS:
             f = prog.func('calendar.IWorkCalendar.' + d)
             ex = Expander(prog, f, ctx.typer, inline=False)
+            exi = Expander(prog, f, ctx.typer)
             allrets = [n for n in walk_no_nested(f.node) if isinstance(n, ast.Return)]
 
-            def comb(r):
-                if r.value is None:
-                    return None
-                vv = ex.expand(r.value)
+            def comb(vv):
+                if isinstance(vv, ast.Call) and not vv.args and len(vv.keywords) == 1 and vv.keywords[0].arg is not None:
+                    vv = ast.Call(func=vv.func, args=[vv.keywords[0].value], keywords=[])      # K(calendars=[..])
                 mm = match("$K([$a, $b])", vv) or match("$K(($a, $b))", vv)
-                if mm and isinstance(mm['K'], ast.Name) and mm['K'].id in prog.classes:
+                if mm and isinstance(mm['K'], ast.Name) and mm['K'].id in prog.classes and \
+                        not isinstance(mm['a'], ast.Starred) and not isinstance(mm['b'], ast.Starred):
                     return mm
                 return None
-            building = [(r, comb(r)) for r in allrets if comb(r) is not None]
-            # every return path must build the combinator: a shortcut (`return self`, `return other`, a constant ..)
-            # makes the result differ from "the operator applied to the operands' values" on some date
-            shortcut = False
+            # every return path (conditional expressions count as paths) must build the combinator: a shortcut
+            # (`return self`, `return other`, a constant ..) makes the result differ from "the operator applied to the
+            # operands' values" on some date
+            paths = []
             for r in allrets:
-                if comb(r) is None:
-                    vv = ex.expand(r.value) if r.value is not None else ast.Constant(value=None)
-                    conds = U.path_clauses(prog, f, r, ctx.typer, drop_raising=True)
-                    if isinstance(vv, (ast.Name, ast.Constant, ast.Attribute)) or (isinstance(vv, ast.Call) and not building):
-                        o.refute(f, r, r, f"`{d}` has a return path that does not build the combinator from [self, promoted other]: "
-                                          f"it returns `{src(vv)[:50]}`" + (" when " + ' and '.join(U.clause_text(c) for c in conds) if conds else '')
-                                 + "; for every date the result must be the operator applied to both operands' values "
-                                   "(e.g. a date without information on the left no longer yields the constant)")
+                vv0 = ex.expand(r.value) if r.value is not None else ast.Constant(value=None)
+                for conds, vv in _ret_leaves(vv0):
+                    paths.append((r, conds, vv, comb(vv)))
+            building = [(r, mm) for r, _, _, mm in paths if mm is not None]
+            shortcut = False
+            for r, lconds, vv, mm in paths:
+                if mm is not None:
+                    continue
+                conds = U.path_clauses(prog, f, r, ctx.typer, drop_raising=True)
+                for t, pol in lconds:
+                    conds = conds + U.cnf(t, pol)
+                when = (" when " + ' and '.join(U.clause_text(c) for c in conds)) if conds else ''
+                mk = match("$K($L)", vv)
+                if mk is None and isinstance(vv, ast.Call) and not vv.args and len(vv.keywords) == 1 and vv.keywords[0].arg is not None:
+                    mk = {'K': vv.func, 'L': vv.keywords[0].value}
+                is_k = mk is not None and isinstance(mk['K'], ast.Name) and mk['K'].id in prog.classes and \
+                    any(c.name == 'IWorkCalendar' for c in prog.mro(mk['K'].id)) and mk['K'].id != 'FixedCalendar'
+                sp = _splices_self(mk['L'], f.params[0]) if mk and isinstance(mk['K'], ast.Name) and mk['K'].id in prog.classes else None
+                if sp is not None:
+                    # an n-ary node built from the left calendar's own operands: only harmless when the combinator's
+                    # result is its plain fold (no clamp between the inner and the outer operator)
+                    if OPS[d] is ast.Sub:
+                        o.refute(f, r, sp, f"`{d}` splices the operands of the left calendar into the new {mk['K'].id} (`{src(mk['L'])[:60]}`)"
+                                 f"{when}: `(a - b) - c` becomes one n-ary subtraction, so a negative inner difference is no longer "
+                                 f"'no capacity' (skipped) for the outer `-`; the result must be the operator applied to both operands' values")
                     else:
-                        o.undecided(f, r, r, f"`{d}` returns `{src(vv)[:60]}` on one path")
-                    shortcut = True
+                        o.undecided(f, r, sp, f"`{d}` builds {mk['K'].id} from the left calendar's own operands (`{src(mk['L'])[:60]}`){when} "
+                                              f"instead of [self, other]")
+                elif _is_helper_call(prog, f, vv):
+                    o.undecided(f, r, r, f"`{d}` returns `{src(vv)[:60]}`{when}: a helper the rule cannot look into")
+                elif is_k and not (isinstance(mk['L'], (ast.List, ast.Tuple)) and not any(isinstance(e, ast.Starred) for e in mk['L'].elts)):
+                    o.undecided(f, r, r, f"`{d}` builds {mk['K'].id} from `{src(mk['L'])[:60]}`{when}: not a literal [self, other]")
+                elif isinstance(vv, (ast.Name, ast.Constant, ast.Attribute)) or (isinstance(vv, ast.Call) and not building):
+                    o.refute(f, r, r, f"`{d}` has a return path that does not build the combinator from [self, promoted other]: "
+                                      f"it returns `{src(vv)[:50]}`" + when
+                             + "; for every date the result must be the operator applied to both operands' values "
+                               "(e.g. a date without information on the left no longer yields the constant)")
+                else:
+                    o.undecided(f, r, r, f"`{d}` returns `{src(vv)[:60]}` on one path")
+                shortcut = True
             if not building:
                 if not shortcut:
                     o.undecided(f, f.node, d, "operator does not return Combinator([self, other])")
@@ -151,7 +222,7 @@ def _dunders(ctx):
                 continue
             rets = [building[0][0]]
             m = building[0][1]
-            if len(building) > 1 and not all(same(ex.expand(r.value), ex.expand(rets[0].value)) for r, _ in building):
+            if len(building) > 1 and not all(same(mm['a'], m['a']) and same(mm['b'], m['b']) for _, mm in building):
                 o.undecided(f, f.node, d, "operator builds its combinator differently on different paths")
                 continue
             K = m['K'].id
@@ -168,7 +239,11 @@ def _dunders(ctx):
                 mm = match("$r.$h($x)", x)
                 if mm and isinstance(mm['x'], ast.Name) and mm['x'].id == other and isinstance(x.func.value, ast.Name) \
                         and x.func.value.id in (f.params[0], 'IWorkCalendar'):
-                    return x.func.attr
+                    return prog.find_method('IWorkCalendar', unmangle(x.func.attr))
+                mm = match("$h($x)", x)
+                if mm and isinstance(mm['h'], ast.Name) and isinstance(mm['x'], ast.Name) and mm['x'].id == other \
+                        and mm['h'].id not in prog.classes:
+                    return prog.module_func(f.module.name, mm['h'].id)
                 return None
 
             swapped = False
@@ -185,50 +260,122 @@ def _dunders(ctx):
             if not shortcut:
                 o.site(f, rets[0], f"{d} -> {K}([self, other])")
             h = promoted(b)
-            if h is None:
-                if isinstance(b, ast.Name) and b.id == other:
-                    op.refute(f, rets[0], rets[0], f"`{d}` passes `other` unpromoted: a number is not turned into a constant calendar")
+            if h is not None:
+                helpers[d] = h
+                op.site(f, rets[0], f"{d}: {h.name}(other)")
+            elif isinstance(b, ast.Name) and b.id == other:
+                op.refute(f, rets[0], rets[0], f"`{d}` passes `other` unpromoted: a number is not turned into a constant calendar")
+            else:
+                # the promotion written in place (or a helper folded by the normaliser): judge the expression itself
+                bx = exi.expand(b)
+                if names_in(bx) - {'type', 'isinstance', 'int', 'float', 'FixedCalendar', 'bool', 'complex', 'Number', 'numbers'} - \
+                        set(_module_consts(prog, f.module)) <= {other} and U.mentions(bx, other):
+                    inline[d] = (f, rets[0], bx)
                 else:
                     op.undecided(f, rets[0], b, "right operand is neither `other` nor helper(other)")
-            else:
-                helpers[d] = h
-                op.site(f, rets[0], f"{d}: {unmangle(h)}(other)")
-        if helpers:
-            common = max(set(helpers.values()), key=list(helpers.values()).count)
-            for d, h in helpers.items():
-                if h != common:
-                    f = prog.func('calendar.IWorkCalendar.' + d)
-                    op.refute(f, f.node, d, f"`{d}` promotes through `{unmangle(h)}` while its siblings use `{unmangle(common)}`")
-            hf = prog.find_method('IWorkCalendar', unmangle(common))
-            if hf is None:
-                op.fail(f"promotion helper {common} not found")
-            else:
-                _promotion_helper(ctx, op, hf)
+        judged = {}
+        for d, h in helpers.items():
+            if h.qual not in judged:
+                judged[h.qual] = True
+                _promotion_helper(ctx, op, h)
+        seen = []
+        for d, (f, r, bx) in inline.items():
+            prev = next((x for x in seen if same(x[0], bx) and x[1] == f.params[1]), None)
+            if prev is None:
+                seen.append((bx, f.params[1]))
+                items = [(r, [c for t, pol in conds for c in U.cnf(t, pol)], v) for conds, v in _ret_leaves(bx)]
+                _judge_promotion(ctx, op, f, items, f.params[1], r, d)
+            op.site(f, r, f"{d}: promotion written in place")
     ctx.guarded(o, body)
     return table
 
 
-def _num_types(cl, var):
-    """type names a clause of positive atoms accepts for var; None if the clause is not a pure type test of var"""
+def _module_consts(prog, module):
+    """{name: value ast} of the simple top-level assignments of a module"""
+    out = {}
+    for st in module.tree.body:
+        if isinstance(st, ast.Assign) and len(st.targets) == 1 and isinstance(st.targets[0], ast.Name):
+            out[st.targets[0].id] = st.value
+        elif isinstance(st, ast.AnnAssign) and isinstance(st.target, ast.Name) and st.value is not None:
+            out[st.target.id] = st.value
+    return out
+
+
+def _type_atom(a, pol, var, consts):
+    """atom as a test of the type of var: (type names, True = 'type is one of them' / False = 'type is none of them')"""
+    while isinstance(a, ast.UnaryOp) and isinstance(a.op, ast.Not):
+        a, pol = a.operand, not pol
+
+    def tnames(t):
+        if isinstance(t, ast.Name) and t.id in consts:
+            t = consts[t.id]
+        if isinstance(t, (ast.List, ast.Tuple, ast.Set)):
+            return {src(x) for x in t.elts}
+        m = match("frozenset($x)", t) or match("set($x)", t) or match("tuple($x)", t)
+        if m:
+            return tnames(m['x'])
+        return {src(t)}
+    for pat, member, coll in (("type($x) in $l", True, True), ("type($x) not in $l", False, True),
+                              ("isinstance($x, $l)", True, True), ("type($x) is $l", True, False),
+                              ("type($x) == $l", True, False), ("type($x) is not $l", False, False),
+                              ("type($x) != $l", False, False)):
+        m = match(pat, a)
+        if m and src(m['x']) == var:
+            names = tnames(m['l']) if coll else {src(m['l'])}
+            return names, (member == pol)
+    return None
+
+
+def _num_types(cl, var, consts=None):
+    """type names a clause (a disjunction of atoms) accepts for var; None if the clause is not a pure positive type test"""
     got = set()
     for a, pol in cl:
-        if not pol:
+        ta = _type_atom(a, pol, var, consts or {})
+        if ta is None or not ta[1]:
             return None
-        m = match("type($x) in $l", a)
-        if m and src(m['x']) == var and isinstance(m['l'], (ast.List, ast.Tuple, ast.Set)):
-            got |= {src(x) for x in m['l'].elts}
-            continue
-        m = match("isinstance($x, $t)", a)
-        if m and src(m['x']) == var:
-            t = m['t']
-            got |= {src(x) for x in t.elts} if isinstance(t, ast.Tuple) else {src(t)}
-            continue
-        m = match("type($x) is $t", a) or match("type($x) == $t", a)
-        if m and src(m['x']) == var:
-            got.add(src(m['t']))
-            continue
-        return None
+        got |= ta[0]
     return got
+
+
+def _judge_promotion(ctx, op, hf, items, p, anchor, label):
+    """items: [(report node, clauses of the path, value)] - the values the promotion of `p` can take"""
+    consts = _module_consts(ctx.prog, hf.module)
+    wrapped = passed = False
+    for r, cls, v in items:
+        m = match("FixedCalendar($x)", v)
+        if m:
+            if not (isinstance(m['x'], ast.Name) and m['x'].id == p):
+                op.refute(hf, r, v, f"a number is promoted to `{src(v)}`, not to the constant calendar FixedCalendar({p})")
+                return
+            pos = [c for c in cls if _num_types(c, p, consts) is not None]
+            rest = [c for c in cls if _num_types(c, p, consts) is None]
+            neg = [c for c in rest if len(c) == 1 and (_type_atom(c[0][0], c[0][1], p, consts) or (None, True))[1] is False]
+            types = set().union(*[_num_types(c, p, consts) for c in pos]) if pos else set()
+            if not pos and neg and {'int', 'float'} & _type_atom(neg[0][0][0], neg[0][0][1], p, consts)[0]:
+                op.refute(hf, r, v, f"the constant calendar is built when {U.clause_text(neg[0])}: numbers are not promoted "
+                                    f"(and calendars are wrapped instead)")
+                return
+            if rest or not pos:
+                op.undecided(hf, r, v, "promotion is conditional on something else than the operand's type")
+                return
+            if not {'int', 'float'} <= types:
+                op.refute(hf, r, v, f"only {sorted(types)} operands are promoted: int and float must both act as constant calendars")
+                return
+            wrapped = True
+        elif isinstance(v, ast.Name) and v.id == p:
+            passed = True
+        elif isinstance(v, ast.Call) and getattr(v.func, 'id', '') == 'FixedCalendar':
+            op.refute(hf, r, v, f"a number is promoted to `{src(v)}`, not to the unbounded constant calendar FixedCalendar({p})")
+            return
+        else:
+            op.undecided(hf, r, v, f"promotion yields `{src(v)[:60]}`")
+            return
+    if wrapped and passed:
+        op.site(hf, anchor, f"{label}: int/float -> FixedCalendar(other), calendars unchanged")
+    elif not wrapped:
+        op.refute(hf, anchor, label, "the promotion never builds FixedCalendar(other): numbers are not promoted")
+    else:
+        op.undecided(hf, anchor, label, "promotion does not return calendars unchanged")
 
 
 def _promotion_helper(ctx, op, hf):
@@ -236,39 +383,12 @@ def _promotion_helper(ctx, op, hf):
     p = hf.params[-1]
     ex = Expander(prog, hf, ctx.typer, inline=False)
     rets = [n for n in walk_no_nested(hf.node) if isinstance(n, ast.Return)]
-    wrapped = passed = False
+    items = []
     for r in rets:
-        v = ex.expand(r.value)
-        cls = U.path_clauses(prog, hf, r, ctx.typer)
-        m = match("FixedCalendar($x)", v)
-        if m:
-            if not (isinstance(m['x'], ast.Name) and m['x'].id == p):
-                op.refute(hf, r, r, f"a number is promoted to `{src(v)}`, not to the constant calendar FixedCalendar({p})")
-                return
-            pos = [c for c in cls if _num_types(c, p) is not None]
-            rest = [c for c in cls if _num_types(c, p) is None]
-            types = set().union(*[_num_types(c, p) for c in pos]) if pos else set()
-            if rest or not pos:
-                op.undecided(hf, r, r, "promotion is conditional on something else than the operand's type")
-                return
-            if not {'int', 'float'} <= types:
-                op.refute(hf, r, r, f"only {sorted(types)} operands are promoted: int and float must both act as constant calendars")
-                return
-            wrapped = True
-        elif isinstance(v, ast.Name) and v.id == p:
-            passed = True
-        elif isinstance(v, ast.Call) and getattr(v.func, 'id', '') == 'FixedCalendar':
-            op.refute(hf, r, r, f"a number is promoted to `{src(v)}`, not to the unbounded constant calendar FixedCalendar({p})")
-            return
-        else:
-            op.undecided(hf, r, r, f"helper returns `{src(v)}`")
-            return
-    if wrapped and passed:
-        op.site(hf, hf.node, "int/float -> FixedCalendar(other), calendars unchanged")
-    elif not wrapped:
-        op.refute(hf, hf.node, hf.name, "the helper never builds FixedCalendar(other): numbers are not promoted")
-    else:
-        op.undecided(hf, hf.node, hf.name, "helper does not return calendars unchanged")
+        base = U.path_clauses(prog, hf, r, ctx.typer)
+        for conds, v in _ret_leaves(ex.expand(r.value) if r.value is not None else ast.Constant(value=None)):
+            items.append((r, base + [c for t, pol in conds for c in U.cnf(t, pol)], v))
+    _judge_promotion(ctx, op, hf, items, p, hf.node, hf.name)
 
 
 # ====================================================================================================== combinators
@@ -365,9 +485,9 @@ def _field_iter(ctx, o, f, loop, K, H=None):
         o.undecided(f, loop, loop.iter, "the fold does not iterate a field of the combinator")
         return False
     field = core.attr
-    init = prog.find_method(K, '__init__')
-    if init is None or init.cls != K:
-        o.undecided(f, loop, K, "combinator without its own __init__")
+    init = prog.find_method(K, '__init__')          # the class's own constructor or the one it inherits
+    if init is None:
+        o.undecided(f, loop, K, "combinator without a constructor in the package")
         return False
     stores = facts.attr_stores(init, field)
     if len(stores) != 1 or len(init.params) < 2:
@@ -445,6 +565,35 @@ def _acc_name(pre, loop):
     return None, None
 
 
+class _Rec:
+    """records verdict calls so that an attempt can be dropped or replayed onto the real obligation"""
+
+    def __init__(self):
+        self.calls = []
+
+    def site(self, *a):
+        self.calls.append(('site', a))
+
+    def refute(self, *a):
+        self.calls.append(('refute', a))
+
+    def undecided(self, *a):
+        self.calls.append(('undecided', a))
+
+    def fail(self, *a):
+        self.calls.append(('fail', a))
+
+    def bad(self):
+        return any(k == 'undecided' for k, _ in self.calls)
+
+    def refuted(self):
+        return any(k in ('refute', 'fail') for k, _ in self.calls)
+
+    def replay(self, ob):
+        for k, a in self.calls:
+            getattr(ob, k)(*a)
+
+
 def _folds(ctx, table):
     prog = ctx.prog
     o = next(x for x in ctx.obligations if x.id.endswith('.op_table'))
@@ -453,27 +602,7 @@ def _folds(ctx, table):
     osb = ctx.ob('fold_siblings', 'R11', "the arithmetic combinators skip exactly the None operands, start from the first "
                  "informative operand, combine every later one, over the constructor's operands in order, for the date asked", floor=4)
 
-    class Rec:
-        """records verdict calls so that an attempt can be dropped or replayed onto the real obligation"""
-
-        def __init__(self):
-            self.calls = []
-
-        def site(self, *a):
-            self.calls.append(('site', a))
-
-        def refute(self, *a):
-            self.calls.append(('refute', a))
-
-        def undecided(self, *a):
-            self.calls.append(('undecided', a))
-
-        def bad(self):
-            return any(k == 'undecided' for k, _ in self.calls)
-
-        def replay(self, ob):
-            for k, a in self.calls:
-                getattr(ob, k)(*a)
+    Rec = _Rec
 
     class C2:
         def __init__(self, prog, typer):
@@ -1115,14 +1244,33 @@ def _field_stores(ctx, f, field, kind):
         return isinstance(x, ast.Attribute) and x.attr == field and _name(x.value, f.params[0] if f.params else 'self')
     out = []
     for stmt, ens in _stores_in(ctx, f, is_field, kind, field):
-        if kind == 'mapping' and ens and len(ens) == 1 and ens[0].kind == 'whole' and isinstance(ens[0].expr, ast.Call):
-            h = U.helper_of(ctx.prog, f, ens[0].expr)
-            recs = _helper_table(ctx, f, stmt, ens[0].expr, h) if h is not None else None
-            if recs:
-                out += recs
+        if kind == 'mapping' and ens:
+            # entries that come from a table-building helper (`K.__build(..)`, also as one side of `state | K.__build(..)`)
+            # are read inside the helper; the rest stays with the statement
+            rest, followed = [], []
+            for en in ens:
+                recs = None
+                if en.kind == 'whole' and isinstance(en.expr, ast.Call):
+                    h = U.helper_of(ctx.prog, f, en.expr) or _module_helper(ctx.prog, f, en.expr)
+                    recs = _helper_table(ctx, f, stmt, en.expr, h) if h is not None else None
+                if recs:
+                    followed += recs
+                else:
+                    rest.append(en)
+            if followed:
+                out += followed
+                if any(en.kind not in ('state', 'empty') for en in rest):
+                    out.append(_Store(f, stmt, rest, {}, f, stmt))
                 continue
         out.append(_Store(f, stmt, ens, {}, f, stmt))
     return out
+
+
+def _module_helper(prog, f, call):
+    """module-level function of the same module called by its bare name"""
+    if isinstance(call.func, ast.Name) and call.func.id not in prog.classes:
+        return prog.module_func(f.module.name, call.func.id)
+    return None
 
 
 def _vleaves(v):
@@ -1361,6 +1509,19 @@ def _dead_validators(ctx):
                 else:
                     o.refute(m, m.node, m.name, f"validator {ci.name}.{m.name} is defined but never called from "
                              f"{' / '.join(r.name for r in roots) or 'any constructor'}: the definitions it rejects are accepted")
+        # checks written (or folded by the normaliser) directly into a constructor / set_units are alive by construction:
+        # they count as matched sites, so that merging a validator into its caller does not make the rule vacuous
+        for ci in prog.classes.values():
+            if ci.module.name not in ('calendar', 'resource'):
+                continue
+            for n, m in ci.methods.items():
+                if n not in ('__init__', 'set_units'):
+                    continue
+                cfg = cfg_of(m)
+                rs = [x for x in walk_no_nested(m.node) if isinstance(x, ast.Raise) and cfg.node_of(x) is not None
+                      and cfg.is_reachable(cfg.node_of(x))]
+                if rs:
+                    o.site(m, rs[0], f"{ci.name}.{n}: {len(rs)} check(s) written in place")
     ctx.guarded(o, body)
 
 
@@ -1775,6 +1936,80 @@ def _day_step(v, direction):
     return None
 
 
+def _search_bounded(ctx, f):
+    """-> ('refute', [(node, construct, message)]) | ('ok', [(node, note)]) | ('unknown', why)"""
+    prog = ctx.prog
+    if 'direction' not in f.params or 'max_days' not in f.params or len(f.params) < 2:
+        return 'unknown', "parameters direction / max_days not found"
+    loops = [n for n in walk_no_nested(f.node) if isinstance(n, (ast.For, ast.While))]
+    anchor = loops[0] if loops else f.node
+    found = {}
+    notes = {}
+    for N in (1, 2, 3, 4):
+        for direction in (1, -1):
+            span = list(range(-(N + 2), N + 3))
+            oracles = [set(), set(span)] + [{x} for x in span] + [{x, x + direction} for x in span]
+            for avail in oracles:
+                shift = -1 if direction < 0 else 0
+                exp = next((k for k in range(N) if k * direction + shift in avail), None)
+                sim = U.SearchSim(prog, f, avail, direction, N)
+                try:
+                    kind, val = sim.run()
+                except U.SimUnknown as u:
+                    return 'unknown', f"{u.why or 'unsupported construct'} (`{src(u.node)[:50]}`)" if isinstance(u.node, ast.AST) else (u.why or '?')
+                dname = 'forward' if direction == 1 else 'backward'
+                days = "no day" if not avail else ("every day" if len(avail) > 2 else "only " + ' and '.join(f"start{x:+d}d" for x in sorted(avail)))
+                case = f"max_days={N}, {dname} (direction={direction:+d}), positive capacity on {days}"
+                tested = "the date itself" if direction == 1 else "the day before the date"
+                cat = msg = None
+                if kind == 'timeout':
+                    cat, msg = 'no-termination', f"{case}: the search does not end (the horizon is never enforced)"
+                elif kind == 'fall' or (kind == 'return' and not isinstance(val, U.SDate)):
+                    if exp is None:
+                        cat, msg = 'no-error', f"{case}: the search returns `{val}` instead of raising RuntimeError"
+                    else:
+                        cat, msg = 'no-date', f"{case}: the search returns `{val}`, expected the date start{exp * direction:+d}d"
+                elif kind == 'raise':
+                    if exp is not None:
+                        cat, msg = 'gives-up-early', (f"{case}: raises {val} after probing {len(sim.probes)} date(s) although start{exp * direction:+d}d "
+                                                      f"(candidate {exp + 1} of {N}; {tested} has capacity) lies within the horizon")
+                    elif val != 'RuntimeError':
+                        cat, msg = 'wrong-exception', f"{case}: an exhausted search raises {val}, expected RuntimeError"
+                else:
+                    if exp is None:
+                        cat, msg = 'beyond-horizon', (f"{case}: returns {val!r} after probing {len(sim.probes)} date(s), expected RuntimeError - "
+                                                      f"no candidate within max_days whole-day steps has capacity on {tested} "
+                                                      f"(the horizon is max_days examined dates; a horizon test that comes after the probe examines one more)")
+                    elif abs(val.off - exp * direction) > 1e-9:
+                        cat, msg = 'wrong-date', (f"{case}: returns {val!r}, expected start{exp * direction:+d}d (the earliest candidate at a whole-day "
+                                                  f"offset for which {tested} has positive capacity, returned unmodified)")
+                if cat is not None:
+                    found.setdefault(cat, msg)
+                else:
+                    notes.setdefault(('ret' if exp is not None else 'exhausted', direction), case)
+    if found:
+        return 'refute', [(anchor, f"bounded:{c}", "search evaluated on a small input - " + m) for c, m in sorted(found.items())]
+    # no deviation on the small inputs.  That only generalises when the function is linear in its inputs with unit
+    # constants: every number written in it (outside the error message) must be 0 or 1
+    skip = set()
+    for n in walk_no_nested(f.node):
+        if isinstance(n, ast.Raise) or (isinstance(n, ast.Expr) and isinstance(n.value, ast.Constant)):
+            skip |= {id(x) for x in ast.walk(n)}
+    for n in walk_no_nested(f.node):
+        if isinstance(n, ast.Constant) and id(n) not in skip and isinstance(n.value, (int, float)) and not isinstance(n.value, bool) \
+                and n.value not in (0, 1):
+            return 'unknown', f"no deviation for max_days 1..4, but the constant {n.value!r} keeps that from generalising"
+    for d in f.node.args.defaults + f.node.args.kw_defaults:
+        pass
+    out = []
+    for direction in (1, -1):
+        out.append((anchor, f"bounded evaluation, direction {direction:+d}: the earliest candidate with capacity is returned unmodified"))
+        out.append((anchor, f"bounded evaluation, direction {direction:+d}: whole-day steps, the tested day is " + ("the date" if direction == 1 else "date - 1 day")))
+        out.append((anchor, f"bounded evaluation, direction {direction:+d}: exactly max_days candidates, then RuntimeError"))
+    out.append((anchor, "bounded evaluation: max_days 1..4, capacity on no / one / two adjacent / all days"))
+    return 'ok', out
+
+
 def _search(ctx):
     prog = ctx.prog
     o = ctx.ob('search', 'R8', "get_nearest_availability_date: counter from 0, `while counter < max_days`; forward tests the current "
@@ -1844,6 +2079,24 @@ def _search(ctx):
             o.site(f, f.node, f"{f.cls} override only delegates to the inherited search with unchanged arguments")
 
     def one(o, f):
+        rec = _Rec()
+        strict(rec, f)
+        if rec.bad() and not rec.refuted():
+            # the loop is not in the armed `while counter < max_days` shape: evaluate the function as written on small
+            # inputs (every horizon 1..4, both directions, capacity on no / one / two adjacent / all days)
+            kind, data = _search_bounded(ctx, f)
+            if kind == 'refute':
+                for node, construct, msg in data:
+                    o.refute(f, node, construct, msg)
+                return
+            if kind == 'ok':
+                for node, note in data:
+                    o.site(f, node, note)
+                return
+            rec.undecided(f, f.node, 'bounded evaluation', f"bounded evaluation of the search not possible: {data}")
+        rec.replay(o)
+
+    def strict(o, f):
         for p in ('direction', 'max_days'):
             if p not in f.params:
                 o.fail(f"get_nearest_availability_date has no parameter {p}")
